@@ -171,6 +171,12 @@ def main():
     for name, text, planted in gfam.duplicate_kinds():
         for t in TOOLS:
             cases.append({'tool': t, 'cls': 'duplicate-kinds', 'detail': name, 'text': text})
+    for kind in ('select', 'subtype'):
+        for name, text, ok in gfam.reference_digraphs(kind, args.tier):
+            if args.tier == 'quick' and not name.endswith(('orderabc', 'ordercba')):
+                continue
+            for t in TOOLS:
+                cases.append({'tool': t, 'cls': 'reference-digraphs', 'detail': name, 'text': text, 'timeout': 20})
     for name, text, planted in gfam.cyclic_subtypes():
         for t in TOOLS:
             cases.append({'tool': t, 'cls': 'cyclic-subtypes', 'detail': name, 'text': text})
